@@ -393,7 +393,9 @@ func main() {
 		mult = 12
 	}
 	t0 := time.Now()
+	phases := map[string]interface{}{}
 	lap := func(what string) {
+		phases[what] = fmt.Sprintf("%.1fs", time.Since(t0).Seconds())
 		if os.Getenv("VERIF_C17_TIMING") != "" {
 			fmt.Fprintf(os.Stderr, "c17 phase %s: %.1fs\n", what, time.Since(t0).Seconds())
 		}
@@ -538,5 +540,5 @@ func main() {
 	out.Case("hsmodel code wRet wSend cRet rEnd", "r=done w=done c=ret cancelled=1 buf=0", "model", true)
 	out.Case("hsmodel buf ctxFire cLeave cRet wRet wSend rErr", "r=send w=done c=ret cancelled=1 buf=1", "model", true)
 	out.Case("hsmodel buf ctxFire cLeave cRet wRet wSend rErr rSend", "stuck", "model", true)
-	out.Close(nil)
+	out.Close(map[string]interface{}{"harness_phase_wall": phases})
 }
